@@ -16,12 +16,15 @@ class FramingServer:
 
     def __init__(self, **adj):
         self.calls = []
+        self.server_vars = {}
         outer = self
 
         def app(environ, start_response):
             body = environ["wsgi.input"].read()
             env = {k: environ[k] for k in environ if k.startswith("HTTP_") or k in KEEP}
+            sv = outer.server_vars
             outer.calls.append({"method": environ["REQUEST_METHOD"], "uri": environ.get("REQUEST_URI", ""), "body": body, "env": env,
+                                "server_vars_ok": all(environ.get(k) == v for k, v in sv.items()),
                                 "types_ok": all(isinstance(v, str) for k, v in environ.items() if k.startswith("HTTP_") or k in KEEP)})
             out = b"ok"
             start_response("200 OK", [("Content-Length", str(len(out))), ("X-Seq", str(len(outer.calls)))])
@@ -96,11 +99,17 @@ class FramingServer:
             seq = [v for (n, v) in r["headers"] if n.lower() == "x-seq"]
             if r["status"] == 200 and seq:
                 c = calls[int(seq[0]) - 1]
-                obs.append({"k": "app", "method": list(c["method"].encode("latin-1")), "target": list(c["uri"].encode("latin-1")),
+                e = c["env"]
+                cpl = lambda x: [ord(ch) for ch in x]
+                obs.append({"k": "app", "env": sorted([cpl(k), cpl(v)] for k, v in e.items() if k.startswith("HTTP_") or k in ("CONTENT_TYPE", "CONTENT_LENGTH")),
+                            "proto": cpl(e.get("SERVER_PROTOCOL", "")), "script": cpl(e.get("SCRIPT_NAME", "")), "path": cpl(e.get("PATH_INFO", "")),
+                            "query": cpl(e.get("QUERY_STRING", "")), "types_ok": bool(c["types_ok"]), "server_vars_ok": bool(c["server_vars_ok"]),
+                            "method": list(c["method"].encode("latin-1")), "target": list(c["uri"].encode("latin-1")),
                             "body": list(c["body"]), "nf": sum(1 for k in c["env"] if k.startswith("HTTP_") or k in ("CONTENT_TYPE",)) + (1 if "CONTENT_LENGTH" in c["env"] and c["env"]["CONTENT_LENGTH"] != "" else 0),
                             "code": 200})
             else:
-                obs.append({"k": "resp", "code": r["status"], "method": [], "target": [], "body": [], "nf": 0})
+                obs.append({"k": "resp", "code": r["status"], "method": [], "target": [], "body": [], "nf": 0, "env": [], "proto": [], "script": [],
+                            "path": [], "query": [], "types_ok": True, "server_vars_ok": True})
         return {"obs": obs, "closed": bool(conn.closed), "raised": bool(conn.exceptions or self.srv.errors), "hang": hang, "after": after,
                 "wire_error": err or "", "garbage": len(rest), "calls": calls,
                 "errors": list(self.srv.errors) + [e[1] for e in conn.exceptions], "interims": sum(1 for r in rs if r["interim"])}
